@@ -2552,7 +2552,8 @@ def dc2(m, run):
     """DC2: operations.decompose_curve / decompose_surface interpreted on recorder shapes whose knots are order tokens (repeated interior
     knots included), the split functions replaced by stubs that cut the knot vector of their own direction at the requested parameter:
     every distinct interior knot of a requested direction is split at exactly once, in ascending order, on the piece that still contains
-    it; other directions are never split; the pieces are returned in parameter order (u-major for 'uv') and the input is never handed to a split"""
+    it; other directions are never split; the pieces are returned in parameter order (u-major for 'uv'), the input is never handed to a split
+    and never returned as a piece (a shape without interior knots included)"""
     def kvec(p, interior):
         return [Ord(0)] * (p + 1) + [Ord(r) for r in interior] + [Ord(max(interior) + 1 if interior else 1)] * (p + 1)
 
@@ -2614,6 +2615,8 @@ def dc2(m, run):
                     if (kv[0], kv[-1]) != (bounds[i], bounds[i + 1]) or any(kv[0] < x < kv[-1] for x in kv):
                         why = 'piece %d spans the knot ranks %s; expected the Bezier segment [%s, %s]' % (i, kv, bounds[i], bounds[i + 1])
                         break
+                if why is None and any(piece is obj for piece in out):
+                    why = 'the input curve itself is returned as a piece: whoever edits the pieces (degree_operations elevates each of them in place) edits the input'
         except Violation as v:
             why = '%s %s' % (v.msg, v.where())
         except Unsupported as ex:
@@ -2694,6 +2697,8 @@ def dc2(m, run):
                             k_ += 1
                         if why:
                             break
+                    if why is None and any(piece is obj for piece in out):
+                        why = 'decompose_dir=%r: the input surface itself is returned as a patch: whoever edits the patches edits the input' % ddir
             except Violation as v:
                 why = '%s %s' % (v.msg, v.where())
             except Unsupported as ex:
@@ -7817,3 +7822,72 @@ def ic2(m, run, rule='IC2.curve-interpolation-on-labelled-points'):
     run.ob(rule, '%s :: %d (points, degree, parametrisation) cases' % (fi.key, cnt), not bad,
            'requested degree, computed parameters / knots / matrix, data points as the right-hand side, solved points as the control points' if not bad else
            '%s: %s   [%d of %d]' % (bad[0][0], bad[0][1], len(bad), cnt), 'geomdl/fitting.py:%d in %s' % (fi.node.lineno, fi.key))
+
+
+# ====================================================================================== the control points stored are the control points given
+def sc2(m, run, rule='SC2.control-points-are-stored-as-given'):
+    """SC2: every spline class is built by interpreting its own constructor with a small `precision` (2 decimals: the setting exists to round
+    knot vectors and to compare shapes) and its control points are assigned through the real set_ctrlpts and through the ctrlpts /
+    ctrlptsw setters as exact symbolic coordinates: what the object holds and what the ctrlpts / ctrlptsw getters return is, coordinate by
+    coordinate, what was given (weighted for rational shapes) -- no coordinate is rounded, scaled or reordered on the way in"""
+    from .skel import Sym
+    from .poly import Poly
+    cases = (('Curve', (2,), (4,)), ('Surface', (2, 1), (3, 4)), ('Volume', (1, 2, 1), (2, 3, 2)))
+    for mod in ('BSpline', 'NURBS'):
+        for cname, degs, sizes in cases:
+            pdim = len(degs)
+            total = 1
+            for s_ in sizes:
+                total *= s_
+            hd = 4 if mod == 'NURBS' else 3
+            key = '%s.%s' % (mod, cname)
+            sfx = [''] if pdim == 1 else ['_' + 'uvw'[d] for d in range(pdim)]
+            P = [[Poly.atom('P_%d_%d' % (i, c)) for c in range(hd)] for i in range(total)]
+            why = None
+            try:
+                for how in ('set_ctrlpts', 'ctrlpts' if mod == 'BSpline' else 'ctrlptsw'):
+                    sk = SK(m, dict(STD_ABSTRACTED))
+                    sk.exact = True
+                    sk.construct = True
+                    o = sk.apply(('class', (mod, cname)), [], {'precision': 2}, None)
+                    for d in range(pdim):
+                        sk.call(m.lookup(o._cls, 'degree' + sfx[d], 'setters'), [o, degs[d]], {})
+                    given = [[Sym(x) for x in row] for row in P]
+                    if how == 'set_ctrlpts':
+                        sk.call(m.lookup(o._cls, 'set_ctrlpts', 'methods'), [o, given] + (list(sizes) if pdim > 1 else []), {})
+                    else:
+                        if pdim > 1:
+                            for d in range(pdim):
+                                o._a['_control_points_size'][d] = sizes[d]
+                        sk.call(m.lookup(o._cls, how, 'setters'), [o, given], {})
+                    held = o._a.get('_control_points')
+                    views = [('the stored control points', held)]
+                    g_ = m.lookup(o._cls, 'ctrlptsw' if mod == 'NURBS' else 'ctrlpts', 'getters')
+                    if g_ is not None:
+                        views.append(('the %s getter' % g_.name, sk.call(g_, [o], {})))
+                    for what, got in views:
+                        if not isinstance(got, (list, tuple)) or len(got) != total:
+                            why = 'after %s: %s has %r points, %d were given' % (how, what, len(got) if isinstance(got, (list, tuple)) else got, total)
+                            break
+                        for i in range(total):
+                            row = got[i]
+                            if not isinstance(row, (list, tuple)) or len(row) != hd:
+                                why = 'after %s: point %d of %s is %s' % (how, i, what, repr(row)[:80])
+                                break
+                            for c in range(hd):
+                                s_ = _as_sym(row[c])
+                                if s_ is None or not s_.same(Sym(P[i][c])):
+                                    why = 'after %s (object built with precision=2): coordinate %d of point %d of %s is %s, given was %r' % (how, c, i, what, repr(row[c])[:100], P[i][c])
+                                    break
+                            if why:
+                                break
+                        if why:
+                            break
+                    if why:
+                        break
+            except Violation as v:
+                why = '%s %s' % (v.msg, v.where())
+            except Unsupported as ex:
+                raise AnalysisError('%s: interpreter met an unsupported construct: %s' % (key, ex))
+            ci = m.classes[(mod, cname)]
+            run.ob(rule, key, why is None, 'set_ctrlpts and the setter store every coordinate as given, the getters return it' if why is None else why, 'geomdl/%s.py:%d class %s' % (mod, ci.node.lineno, cname))
